@@ -2,7 +2,7 @@
    fails to compile if Props/C11.v is weakened, renamed or given other hypotheses. *)
 From Coq Require Import SpecFloat.
 Require Import Base Value Float PrintOptions ParseOptions Utf8 Reader Scan Num NumberOps Parser.
-Require Import RelFramework PositionProofs SpanProofs CrossProofs SourcesAgree.
+Require Import RelFramework PositionProofs SpanProofs CrossProofs SourcesAgree QuoteSpan.
 Require Import Lexpr.Props.C11.
 
 Check (C11_spans_in_bounds_partial :
@@ -72,3 +72,11 @@ Check (C11_same_across_slice_and_stream :
   | PErr (XErr (EIo a)), PErr (XErr (EIo b)) => a = b
   | _, _ => False
   end).
+
+Check (C11_quote_head :
+  forall ro alpha fast std_parse f s b r1 dd s',
+  parse_whitespace f (rd s) = (Ok (Some b), r1) -> b = 39 \/ b = 96 \/ b = 44 ->
+  next_datum ro alpha fast std_parse (S f) s = (POk (Some dd), s') ->
+  exists name quoted,
+    dd = quotation_datum name quoted (mk_span (r_position r1) (pos_from (r_position r1) (qtext name))) /\
+    hd 0 (qtext name) = b).
